@@ -131,7 +131,7 @@ type dbOp struct {
 }
 
 type dbCfg struct {
-	Start string `json:"start"` // "" (empty) | fixture name | "gen"
+	Start string       `json:"start"` // "" (empty) | fixture name | "gen"
 	Gen   []dbListSpec `json:"gen,omitempty"`
 }
 
